@@ -101,6 +101,42 @@ pub fn generate(g: &mut Gen, thorough: bool) {
             case(g, "default", &def, "I", "01", "23", &inv, &icl, &format!("{name}-inv"), true);
         }
     }
+    // the aspects of a projection are branches of its code: the polar and equatorial aspects of laea, the
+    // one-parallel and polar forms of lcc, merc by lat_ts - each with NaN in every subset of the elements
+    for (def, centre) in [
+        ("laea lat_0=90 lon_0=10 x_0=2000000 y_0=2000000", (10.0, 80.0)), ("laea lat_0=-90 x_0=500 y_0=-500 ellps=intl", (0.0, -75.0)), ("laea lat_0=0 lon_0=-70", (-70.0, 5.0)),
+        ("laea lat_0=90", (0.0, 89.0)), ("lcc lat_1=80 lat_0=85 k_0=0.994 x_0=2000000 y_0=2000000", (0.0, 80.0)), ("lcc lat_1=-60 lon_0=140 y_0=100", (140.0, -60.0)),
+        ("merc lat_ts=56 x_0=100", (0.0, 50.0)), ("somerc lat_0=46.95 lon_0=7.44 x_0=2600000 y_0=1200000 ellps=bessel", (7.44, 46.95)),
+    ] {
+        let mut pts: Vec<[f64; 4]> = (0..5).map(|_| [(centre.0 + g.rng.uniform(-20.0, 20.0) as f64).to_radians(), (centre.1 + g.rng.uniform(-8.0, 8.0) as f64).to_radians(), 12.5, 2020.0]).collect();
+        let mut classes = "i".repeat(pts.len());
+        for base in [pts[0], pts[1]] {
+            for mask in 1..16u32 {
+                let mut q = base;
+                for j in 0..4 {
+                    if mask & (1 << j) != 0 {
+                        q[j] = f64::NAN;
+                    }
+                }
+                pts.push(q);
+                classes.push('e');
+            }
+        }
+        case(g, "default", def, "F", "01", "23", &pts, &classes, "aspects-fwd", true);
+        let mut inv: Vec<[f64; 4]> = vec![[310000.0, 2100000.0, 3.0, 2001.0], [2100000.0, 1900000.0, 0.0, 0.0]];
+        let mut icl = "ee".to_string();
+        for mask in 1..16u32 {
+            let mut q = inv[0];
+            for j in 0..4 {
+                if mask & (1 << j) != 0 {
+                    q[j] = f64::NAN;
+                }
+            }
+            inv.push(q);
+            icl.push('e');
+        }
+        case(g, "default", def, "I", "01", "23", &inv, &icl, "aspects-inv", true);
+    }
     // lcc: the opposite pole cannot be projected
     for (def, lat) in [("lcc lat_1=57 lat_2=60", -90.0f64), ("lcc lat_1=-33", 90.0), ("lcc lat_1=40 lat_0=30 lon_0=10 x_0=5", -90.0)] {
         let pts = vec![[0.2, lat.to_radians(), 5.0, 2001.0], [0.2, -lat.to_radians() * 0.5, 5.0, 2001.0]];
